@@ -37,6 +37,7 @@ type activeBuild struct {
 	rebuildWaitGroup   *sync.WaitGroup // Allows "cancel" to wait for all active rebuilds (within mutex because "sync.WaitGroup" isn't thread-safe)
 	withinRebuildCount int
 	didGetCancel       bool
+	disposeDone        chan struct{} // Created by "dispose" and closed when it has finished
 }
 
 type serviceType struct {
@@ -46,6 +47,20 @@ type serviceType struct {
 	keepAliveWaitGroup *helpers.ThreadSafeWaitGroup
 	mutex              sync.Mutex
 	nextRequestID      uint32
+}
+
+// A "cancel" or a "dispose" that arrives while an earlier "dispose" is still
+// waiting for the running build must not be answered before the build has ended
+func (service *serviceType) respondAfterDispose(id uint32, disposeDone chan struct{}) {
+	service.keepAliveWaitGroup.Add(1)
+	go func() {
+		defer service.keepAliveWaitGroup.Done()
+		<-disposeDone
+		service.sendPacket(encodePacket(packet{
+			id:    id,
+			value: make(map[string]interface{}),
+		}))
+	}()
 }
 
 func (service *serviceType) getActiveBuild(key int) *activeBuild {
@@ -461,6 +476,7 @@ func (service *serviceType) handleIncomingPacket(bytes []byte) {
 		if build := service.getActiveBuild(key); build != nil {
 			build.mutex.Lock()
 			ctx := build.ctx
+			disposeDone := build.disposeDone
 			rebuildWaitGroup := build.rebuildWaitGroup
 			if build.withinRebuildCount > 0 {
 				// If Go got a "rebuild" message from JS before this, there's a chance
@@ -493,6 +509,10 @@ func (service *serviceType) handleIncomingPacket(bytes []byte) {
 				}()
 				return
 			}
+			if disposeDone != nil {
+				service.respondAfterDispose(p.id, disposeDone)
+				return
+			}
 		}
 		service.sendPacket(encodePacket(packet{
 			id:    p.id,
@@ -505,6 +525,10 @@ func (service *serviceType) handleIncomingPacket(bytes []byte) {
 			build.mutex.Lock()
 			ctx := build.ctx
 			build.ctx = nil
+			if ctx != nil {
+				build.disposeDone = make(chan struct{})
+			}
+			disposeDone := build.disposeDone
 			build.mutex.Unlock()
 
 			// Release this ref count if it was held
@@ -526,6 +550,7 @@ func (service *serviceType) handleIncomingPacket(bytes []byte) {
 
 					ctx.Dispose()
 					service.destroyActiveBuild(key)
+					close(disposeDone)
 
 					// Only return control to JavaScript once everything relating to this
 					// build has gracefully ended. Otherwise JavaScript will unregister
@@ -536,6 +561,10 @@ func (service *serviceType) handleIncomingPacket(bytes []byte) {
 						value: make(map[string]interface{}),
 					}))
 				}()
+				return
+			}
+			if disposeDone != nil {
+				service.respondAfterDispose(p.id, disposeDone)
 				return
 			}
 		}
